@@ -1,4 +1,4 @@
-import KyupyVerif.Proofs.ImplDatasheet
+import KyupyVerif.Proofs.ImplDescribes
 import KyupyVerif.Proofs.TechFun
 import KyupyVerif.Proofs.TechAdd
 /-! Glue for the composition C19 → C10, part 2: for an instance of a combinational library cell whose implementation is
@@ -18,24 +18,10 @@ structure Describes (cr : Cell) (m : NNet) (sh : Shape) (order : List Nat) : Pro
   nIn : cr.inNames.length = sh.inPorts.length
   outs : cr.outLines.map (·.2) = sh.outLines
 
-theorem describes_of {cr : Cell} {m : NNet} {sh : Shape} {order : List Nat}
-    (h : describesB Gen.kindPrefixes cr m sh order = true) : Describes cr m sh order := by
-  simp only [describesB, Bool.and_eq_true, beq_iff_eq, List.all_eq_true, Option.isNone_iff_eq_none] at h
-  obtain ⟨⟨⟨⟨⟨⟨⟨h1, _⟩, _⟩, h4⟩, h5⟩, h6⟩, h7⟩, h8⟩ := h
-  refine ⟨?_, ?_, ?_, h6, ?_, h8⟩
-  · simp only [Cell.prog, h1, List.map_map]
-    apply List.map_congr_left
-    intro r _; rfl
-  · unfold Net.sNodes at h4 ⊢
-    simp only [List.length_append] at h4
-    have ha : ((List.range m.net.nodes.size).filter fun i => (m.net.node i).isDff) = [] :=
-      List.eq_nil_of_length_eq_zero (by omega)
-    have hb : ((List.range m.net.nodes.size).filter fun i => (m.net.node i).isLatch) = [] :=
-      List.eq_nil_of_length_eq_zero (by omega)
-    rw [ha, hb]; simp
-  · intro j n hj
-    exact h5 (n, j) (List.mem_zipIdx_iff_getElem?.mpr (by simpa using hj))
-  · rw [← h7]; simp [Cell.inNames, Cell.inSlots]
+theorem describes_of {cr : Cell} {m : NNet} {sh : Shape} {order : List Nat} (hsh : implShape m = some sh)
+    (h : describesB Gen.kindPrefixes cr m order = true) : Describes cr m sh order := by
+  obtain ⟨h1, h2, h3, h4, h5, h6⟩ := describes_parts hsh h
+  exact ⟨h1, h2, h3, h4, h5, h6⟩
 
 theorem getD_map_pin (ins : List (Option Nat)) (v : Nat → Bool) (k : Nat) :
     (ins.map fun o => match o with | some l => v l | none => false).getD k false =
@@ -137,12 +123,12 @@ theorem implMatches_iff_datasheet (h : NNet) (c : Nat) (m : NNet) (sh : Shape) (
     (name : Str) (fam : DS.Fam)
     (hsh : implShape m = some sh) (hwf : m.net.wfB = true) (ho : orderOKB m.net order = true)
     (hfk : forksOKB m.net order = true) (hall : linesDrivenB Gen.kindPrefixes m.net order = true)
-    (hdesc : describesB Gen.kindPrefixes cr m sh order = true) (hfit : pinsFitB h c sh = true)
+    (hdesc : describesB Gen.kindPrefixes cr m order = true) (hfit : pinsFitB h c sh = true)
     (hcr : cr ∈ Tech.cells) (hn : name ∈ cr.names) (hf : classify (baseName name) = some fam) :
     ∃ fs, datasheet fam cr.inNames cr.outNames = some fs ∧ fs.length = sh.outLines.length ∧
       ∀ v : Nat → Bool, (∃ anm vm, ImplMatches h c m sh false (!·) prim2 anm vm v) ↔
         ∀ k (hk : k < fs.length) ll, instOut h c k = some ll → v ll = fs[k] (instVals h c false v) := by
-  have hd := describes_of hdesc
+  have hd := describes_of hsh hdesc
   have hspec : FamSpec cr fam := by
     cases ha : fam.isAdder with
     | true => exact funOK_sound (all_chunks Tech.adders hcr) hn hf ha
@@ -210,14 +196,15 @@ def CellDatasheet (row : String → Cell) (h : NNet) (c : Nat) (v : Nat → Bool
 /-- **certificate for instance `c`** (every clause decidable; evaluated by the driver for every cell of the five libraries):
     its kind has the implementation `impl` in the library, `impl` is well-formed and acyclic (`ord kind` is a topological order,
     every line is written by a row of the `SimOps` program), the row `row kind` of the generated C19 tables carries this kind
-    name, is in a listed family and describes `impl` (`describesB`: same op rows, ports, slots, captured lines), and all
+    name, is in a listed family and describes `impl` (`describesB`: same op rows, same ports with slots / captured lines, no state
+    element, distinct ports), and all
     input pins of the instance are connected -/
 def InstCert (lib : Lib) (row : String → Cell) (ord : String → List Nat) (h : NNet) (c : Nat) : Prop :=
   ∃ impl sh, lib.find (h.net.node c).kind = some impl ∧ implShape impl = some sh ∧
     impl.net.wfB = true ∧ orderOKB impl.net (ord (h.net.node c).kind) = true ∧
     forksOKB impl.net (ord (h.net.node c).kind) = true ∧
     linesDrivenB Gen.kindPrefixes impl.net (ord (h.net.node c).kind) = true ∧
-    describesB Gen.kindPrefixes (row (h.net.node c).kind) impl sh (ord (h.net.node c).kind) = true ∧
+    describesB Gen.kindPrefixes (row (h.net.node c).kind) impl (ord (h.net.node c).kind) = true ∧
     pinsFitB h c sh = true ∧ row (h.net.node c).kind ∈ Tech.cells ∧
     (h.net.node c).kind.toList ∈ (row (h.net.node c).kind).names ∧
     (classify (baseName (h.net.node c).kind.toList)).isSome = true
